@@ -11,6 +11,8 @@ import (
 	"go/token"
 	"go/types"
 	"math/big"
+	"sort"
+	"strings"
 
 	"golang.org/x/tools/go/packages"
 	"golang.org/x/tools/go/ssa"
@@ -234,6 +236,43 @@ func (x *Exec) constTermOf(e ast.Expr, t types.Type, info *types.Info) (Term, bo
 	return Term{}, false
 }
 
+// stableGlobals: package variables declared `stable` or `readonly` in contract files (assumed not to be written while
+// the functions under contract run; listed as an assumption) that have been referenced so far or are declared.
+func (x *Exec) stableGlobals() []*ssa.Global {
+	if x.DB == nil {
+		return nil
+	}
+	if x.stableCache == nil {
+		x.stableCache = []*ssa.Global{}
+		// (read-only variables with a constant initialiser are not listed: loads read the initialiser itself)
+		for _, set := range []map[string]bool{x.DB.Stable, x.DB.ReadOnly} {
+			for name := range set {
+				i := strings.LastIndex(name, ".")
+				if i < 0 {
+					continue
+				}
+				for _, pkg := range x.P.SSA.AllPackages() {
+					if pkg.Pkg.Path() == name[:i] {
+						if g, ok := pkg.Members[name[i+1:]].(*ssa.Global); ok {
+							if x.DB.ReadOnly[name] {
+								if e, _ := x.P.globalInitExpr(g); e != nil {
+									continue
+								}
+							}
+							x.stableCache = append(x.stableCache, g)
+						}
+					}
+				}
+			}
+		}
+		sort.Slice(x.stableCache, func(i, j int) bool { return x.stableCache[i].String() < x.stableCache[j].String() })
+		if len(x.DB.Stable) > 0 {
+			x.C.trusted["package variables declared stable (protocol parameters) are not modified while the functions under contract run"] = true
+		}
+	}
+	return x.stableCache
+}
+
 // constrainGlobal: on first use of a read-only global with a constant initialiser, pin its initial-heap content.
 func (x *Exec) constrainGlobal(g *ssa.Global, p PtrV) {
 	if x.globalPinned[g] {
@@ -257,15 +296,10 @@ func (x *Exec) constrainGlobal(g *ssa.Global, p PtrV) {
 		return
 	}
 	t = x.C.Name("ginit_"+g.Name(), t)
-	init := &State{PC: TTrue, Heap: map[string]Term{}, Epoch: 0, Brk: BVInt(0, 32)}
-	cur, err := x.Load(init, p)
-	if err != nil {
-		return
+	// loads from the variable read the initialiser directly (no heap dependence, nothing to keep across havoc)
+	if x.roInit == nil {
+		x.roInit = map[string]Term{}
 	}
-	ct, err := x.toTerm(cur)
-	if err != nil {
-		return
-	}
-	x.C.Assume(Eq(ct, t), "read-only package variable "+g.String()+" holds its initialiser")
+	x.roInit[p.Base.S] = t
 	x.C.trusted["read-only package variables hold their constant initialisers ("+g.Name()+")"] = true
 }
